@@ -518,6 +518,13 @@ def build_space_tolerant_regex(linespec: str,
     return linespec
 
 
+@logger.catch(reraise=True)
+def escape_linespec(linespec: str) -> str:
+    r"""``re.escape()`` the ``linespec`` but leave whitespace alone (an escaped blank and
+    a blank match the same text), so ``ignore_ws`` can still turn it into ``\s+``."""
+    return re.sub(r"\\(\s)", r"\1", re.escape(linespec))
+
+
 # This method was copied from the same method in git commit below...
 # https://raw.githubusercontent.com/mpenning/ciscoconfparse/bb3f77436023873da344377d3c839387f5131e7f/ciscoconfparse/ciscoconfparse2.py
 @logger.catch(reraise=True)
@@ -2933,7 +2940,7 @@ debug={debug},
             ###################################################################
             # Escape regex to avoid embedded parenthesis problems
             ###################################################################
-            linespec = re.escape(linespec)
+            linespec = escape_linespec(linespec)
 
         if self.config_objs.search_safe is False:
             error = "The configuration has changed since the last commit; a config search is not safe."
@@ -3067,8 +3074,8 @@ debug={debug},
             ###################################################################
             # Escape regex to avoid embedded parenthesis problems
             ###################################################################
-            parentspec = re.escape(parentspec)
-            childspec = re.escape(childspec)
+            parentspec = escape_linespec(parentspec)
+            childspec = escape_linespec(childspec)
 
         if isinstance(parentspec, BaseCfgLine):
             parentspec = parentspec.text
@@ -3237,8 +3244,8 @@ debug={debug},
             ###################################################################
             # Escape regex to avoid embedded parenthesis problems
             ###################################################################
-            parentspec = re.escape(parentspec)
-            childspec = re.escape(childspec)
+            parentspec = escape_linespec(parentspec)
+            childspec = escape_linespec(childspec)
 
         if isinstance(parentspec, BaseCfgLine):
             parentspec = parentspec.text
@@ -3369,8 +3376,8 @@ debug={debug},
             ###################################################################
             # Escape regex to avoid embedded parenthesis problems
             ###################################################################
-            parentspec = re.escape(parentspec)
-            childspec = re.escape(childspec)
+            parentspec = escape_linespec(parentspec)
+            childspec = escape_linespec(childspec)
 
         if isinstance(parentspec, BaseCfgLine):
             parentspec = parentspec.text
